@@ -782,6 +782,21 @@ def is_nonzero_step_test(interp, node, frame, value):
     return True
 
 
+def _function_node(interp, qualname):
+    """AST node of the function of the package with this qualified name (module.function or module.Class.method)"""
+    parts = qualname.split('.')
+    repo = getattr(interp, 'repo', None)
+    if repo is None or parts[0] not in repo.modules:
+        return None
+    mod = repo.modules[parts[0]]
+    if len(parts) == 2:
+        return mod.funcs.get(parts[1])
+    if len(parts) == 3 and parts[1] in mod.classes:
+        r = mod.classes[parts[1]].lookup(parts[2])
+        return r[1] if r is not None else None
+    return None
+
+
 class Explorer(object):
     """Re-runs `body(oracle)` once per combination of outcomes of the undetermined branch *sites* it meets
     (both successors of every such branch are analysed; nothing is solved).  A site (source location of the
@@ -842,9 +857,14 @@ class Explorer(object):
                 by_site[site] = k
                 decisions.append((choice,) + site[:2] + (tags_of(value),))
                 fn_clo = getattr(frame, 'fn', None)
+                fn_node = fn_clo.node if fn_clo is not None and hasattr(fn_clo, 'node') else None
+                if fn_node is None and getattr(interp, 'stack', None):
+                    # the decision was taken inside a builtin (bool(..), filter(..)): the function being interpreted is the one
+                    # on top of the call stack
+                    fn_node = _function_node(interp, interp.stack[-1])
                 self.site_info[site[:2]] = (interp.stack[-1] if getattr(interp, 'stack', None) else '', classify_predicate(base_val),
                                             logical_shape(base_val),
-                                            frozenset(called_names(fn_clo.node)) if fn_clo is not None and hasattr(fn_clo, 'node') else frozenset())
+                                            frozenset(called_names(fn_node)) if fn_node is not None else frozenset())
                 if oid is not None:
                     by_obj[oid] = (choice, base_val.expr)     # keeps the expression alive: ids stay unique
                 return choice != neg
